@@ -427,6 +427,41 @@ inline std::string tidy_network(sim::Rng& g)
     return build_gkf(q);
 }
 
+
+// ------------------------------------------------------- documents of size ----
+// Well-formed input of EXTREME SIZE (header `scale k`), through the parser alone: termination within the run's time
+// limit is the clause that matters (an accidentally quadratic loop turns seconds into hours).
+inline int n_scale_docs() { return 4; }
+inline std::string build_scale(long long k)
+{
+  std::string head = "<?xml version=\"1.0\" ?>\n<gama-local xmlns=\"http://www.gnu.org/software/gama/gama-local\">\n<network>\n<points-observations distance-stdev=\"5\" direction-stdev=\"10\">\n";
+  std::string tail = "</points-observations>\n</network>\n</gama-local>\n", d = head;
+  switch (k % 4) {
+    case 0: {   // one <obs> cluster of 1500 distances with a FULL covariance matrix: more than a million numbers in one <cov-mat>
+      const int N = 1500;
+      d += "<point id=\"A\" x=\"0\" y=\"0\" fix=\"xy\"/>\n<point id=\"B\" x=\"100\" y=\"0\" fix=\"xy\"/>\n<point id=\"C\" x=\"50\" y=\"80\" adj=\"xy\"/>\n<obs from=\"A\">\n";
+      for (int i = 0; i < N; i++) d += "<distance to=\"C\" val=\"94.34\"/>\n";
+      d += fmt("<cov-mat dim=\"%d\" band=\"%d\">\n", N, N - 1);
+      for (int i = 0; i < N; i++) { d += "25"; d.append((size_t)(N - 1 - i) * 2, ' '); for (size_t q = d.size() - (size_t)(N - 1 - i) * 2; q < d.size(); q += 2) d[q + 1] = '0'; d += "\n"; }
+      d += "</cov-mat>\n</obs>\n"; break; }
+    case 1: {   // twenty thousand points and as many observations
+      d += "<point id=\"A\" x=\"0\" y=\"0\" fix=\"xy\"/>\n<obs from=\"A\">\n";
+      for (int i = 0; i < 20000; i++) d += fmt("<distance to=\"P%d\" val=\"%d.5\"/>\n", i, 10 + i % 90);
+      d += "</obs>\n";
+      for (int i = 0; i < 20000; i++) d += fmt("<point id=\"P%d\" x=\"%d\" y=\"%d\" adj=\"xy\"/>\n", i, i % 300, i / 300);
+      break; }
+    case 2: {   // identifiers and a description of hundreds of kilobytes
+      std::string id(200000, 'i'); std::string text; for (int i = 0; i < 20000; i++) text += "a line of the description, fifty characters long.\n";
+      d = "<?xml version=\"1.0\" ?>\n<gama-local xmlns=\"http://www.gnu.org/software/gama/gama-local\">\n<network>\n<description>" + text + "</description>\n<points-observations distance-stdev=\"5\">\n";
+      d += "<point id=\"" + id + "\" x=\"0\" y=\"0\" fix=\"xy\"/>\n<point id=\"C\" x=\"50\" y=\"80\" adj=\"xy\"/>\n<obs from=\"" + id + "\">\n<distance to=\"C\" val=\"94.34\"/>\n</obs>\n"; break; }
+    default: {  // ten thousand clusters, each with its own small covariance matrix
+      d += "<point id=\"A\" x=\"0\" y=\"0\" fix=\"xy\"/>\n<point id=\"C\" x=\"50\" y=\"80\" adj=\"xy\"/>\n";
+      for (int i = 0; i < 10000; i++) d += "<obs from=\"A\">\n<distance to=\"C\" val=\"94.34\"/>\n<distance to=\"C\" val=\"94.35\"/>\n<cov-mat dim=\"2\" band=\"1\"> 25 1 25 </cov-mat>\n</obs>\n";
+    }
+  }
+  return d + tail;
+}
+
 // ----------------------------------------------------------- enumeration -----
 // One enumerated sub-space: every sequence of `depth` events from `events` in every context of the alphabet.
 struct Ev { int tag; int kind; int variant; };
